@@ -434,7 +434,7 @@ pub fn run(cfg: &RunCfg) -> Report {
     let mut rep = Report::new(
         "C19",
         "exploration",
-        "stateful sequences of push (next free id of a 3-8 id pool, so ids are unique among queued orders and re-pushed after pop/removal) / pop / find / remove / len / is_empty / to_vec on an OrderQueue, with rebuilds of the queue from its own listing (from_vec, From<Vec>), its text form and its JSON form; model = the queued orders in push order: pop returns the earliest pushed, find/remove exactly the queued order or None, len/is_empty exact after every step, to_vec the queued set, a rebuilt queue holds the same set and pops in input order; a final drain pops the rest in model order. The model follows the implementation only through the listed known finding KF-C19-1 (pop hands out a re-pushed id whose earlier incarnation was removed by id); any other disagreement is a violation. Since rounds 4-5: rendering the queue (Debug, text, JSON, JSON into a failing writer, Value) and re-pushing the very allocation that remove(id) handed back are generated operations; the queue's ticket FIFO is tracked exactly and KF-C19-1 excuses a pop only if it is the one that FIFO yields. Non-trivial = a sequence with a remove followed by a pop, or a re-push; distinct = hash of the sequence.",
+        "stateful sequences of push (next free id of a 3-8 id pool, so ids are unique among queued orders and re-pushed after pop/removal) / pop / find / remove / len / is_empty / to_vec on an OrderQueue, with rebuilds of the queue from its own listing (from_vec, From<Vec>), its text form and its JSON form; model = the queued orders in push order: pop returns the earliest pushed, find/remove exactly the queued order or None, len/is_empty exact after every step, to_vec the queued set, a rebuilt queue holds the same set and pops in input order; a final drain pops the rest in model order. The model follows the implementation only through the listed known finding KF-C19-1 (pop hands out a re-pushed id whose earlier incarnation was removed by id); any other disagreement is a violation. Since rounds 4-5: rendering the queue (Debug, text, JSON, JSON into a failing writer, Value) and re-pushing the very allocation that remove(id) handed back are generated operations; the queue's ticket FIFO is tracked exactly and KF-C19-1 excuses a pop only if it is the one that FIFO yields. Non-trivial = a sequence with a remove followed by a pop, or a re-push; distinct = hash of the sequence. Since round 6: the queue is also rendered (Display / Debug) into fmt::Write and io::Write sinks that fail part-way, and after every rendering operation the text and JSON forms taken next must decode to the queued orders.",
     );
     let known = crate::known::load(&cfg.root);
     let excuse = known.listed("C19", "KF-C19-1");
